@@ -363,6 +363,51 @@ struct Logger : M::LoggerInterface {
 };
 #endif
 
+
+//------------------------------------------------------------------------------ API variants
+// Every id-taking operation of the library also exists as a template taking the state type.  Half of the
+// invocations (chosen by a deterministic tick, independent of the decisions) go through the typed form; the
+// specification does not distinguish them, so any difference shows up as a conformance mismatch / monitor finding.
+
+#ifndef VH_TYPED_MAX
+#define VH_TYPED_MAX 9
+#endif
+static unsigned g_apiTick = 0;
+static inline bool typedNow() { return VH_N <= VH_TYPED_MAX && (((++g_apiTick * 2654435761u) >> 13) & 1u) != 0; }
+
+template <int I, int E> struct Disp {
+	template <typename F> static void go(int id, F& f) { if (id == I) f.template call<St<I>>(); else Disp<I + 1, E>::go(id, f); }
+};
+template <int E> struct Disp<E, E> { template <typename F> static void go(int, F&) {} };
+template <typename F> static void typed(int id, F& f) { Disp<0, (VH_N <= VH_TYPED_MAX ? VH_N : 0)>::go(id, f); }
+
+template <typename X> struct F_changeTo			 { X& x; template <typename T> void call() { x.template changeTo<T>(); } };
+template <typename X> struct F_immediateChangeTo { X& x; template <typename T> void call() { x.template immediateChangeTo<T>(); } };
+template <typename X> struct F_isActive			 { const X& x; bool r; template <typename T> void call() { r = x.template isActive<T>(); } };
+template <typename X> struct F_stateId			 { int r; template <typename T> void call() { r = X::template stateId<T>(); } };
+#if VH_PLANS
+template <typename X> struct F_succeed			 { X& x; template <typename T> void call() { x.template succeed<T>(); } };
+template <typename X> struct F_fail				 { X& x; template <typename T> void call() { x.template fail<T>(); } };
+template <typename X> struct F_planChange1		 { X& x; int d; bool r; template <typename T> void call() { r = x.template change<T>(static_cast<ffsm2::StateID>(d)); } };
+template <typename X, typename TO> struct F_planChange2b { X& x; bool r; template <typename T> void call() { r = x.template change<TO, T>(); } };
+template <typename X> struct F_planChange2		 { X& x; int d; bool r; template <typename T> void call() { F_planChange2b<X, T> g = { x, false }; typed(d, g); r = g.r; } };
+#endif
+#if VH_PAY
+template <typename X> struct F_changeWith		   { X& x; const Pay& p; template <typename T> void call() { x.template changeWith<T>(p); } };
+template <typename X> struct F_immediateChangeWith { X& x; const Pay& p; template <typename T> void call() { x.template immediateChangeWith<T>(p); } };
+#if VH_PLANS
+template <typename X> struct F_planChangeWith1	   { X& x; int d; const Pay& p; bool r; template <typename T> void call() { r = x.template changeWith<T>(static_cast<ffsm2::StateID>(d), p); } };
+template <typename X, typename TO> struct F_planChangeWith2b { X& x; const Pay& p; bool r; template <typename T> void call() { r = x.template changeWith<TO, T>(p); } };
+template <typename X> struct F_planChangeWith2	   { X& x; int d; const Pay& p; bool r; template <typename T> void call() { F_planChangeWith2b<X, T> g = { x, p, false }; typed(d, g); r = g.r; } };
+#endif
+#endif
+
+template <typename X>
+static bool isActiveVar(const X& x, int id, bool useTyped) {
+	if (useTyped) { F_isActive<X> f = { x, false }; typed(id, f); return f.r; }
+	return x.isActive(static_cast<ffsm2::StateID>(id));
+}
+
 //------------------------------------------------------------------------------ views
 
 template <typename TTransition>
@@ -398,8 +443,9 @@ template <typename TControl>
 static void emitCAct(TControl& control) {
 	g_rec.s("\"cact\":[");
 	bool first = true;
+	const bool ty = typedNow();
 	for (int i = 0; i < VH_N; ++i)
-		if (control.isActive(static_cast<ffsm2::StateID>(i))) { if (!first) g_rec.s(","); g_rec.i(i); first = false; }
+		if (isActiveVar(control, i, ty)) { if (!first) g_rec.s(","); g_rec.i(i); first = false; }
 	g_rec.s("],");
 }
 
@@ -408,8 +454,9 @@ static void emitMAct(TInstance& m) {
 	g_rec.kv("mact", m.activeStateId());
 	g_rec.s("\"mia\":[");
 	bool first = true;
+	const bool ty = typedNow();
 	for (int i = 0; i < VH_N; ++i)
-		if (m.isActive(static_cast<ffsm2::StateID>(i))) { if (!first) g_rec.s(","); g_rec.i(i); first = false; }
+		if (isActiveVar(m, i, ty)) { if (!first) g_rec.s(","); g_rec.i(i); first = false; }
 	g_rec.s("],");
 }
 
@@ -445,12 +492,32 @@ template <int K> struct Perform {
 };
 
 #if VH_PLANS
+// plan.change(o, d) / change<O>(d) / change<O, D>()
+template <typename P>
+static bool planChangeVar(P& plan, int o, int d) {
+	if (typedNow()) {
+		if (g_apiTick & 4u) { F_planChange2<P> f = { plan, d, false }; typed(o, f); return f.r; }
+		F_planChange1<P> f = { plan, d, false }; typed(o, f); return f.r;
+	}
+	return plan.change(static_cast<ffsm2::StateID>(o), static_cast<ffsm2::StateID>(d));
+}
+#if VH_PAY
+template <typename P>
+static bool planChangeWithVar(P& plan, int o, int d, const Pay& pay) {
+	if (typedNow()) {
+		if (g_apiTick & 4u) { F_planChangeWith2<P> f = { plan, d, pay, false }; typed(o, f); return f.r; }
+		F_planChangeWith1<P> f = { plan, d, pay, false }; typed(o, f); return f.r;
+	}
+	return plan.changeWith(static_cast<ffsm2::StateID>(o), static_cast<ffsm2::StateID>(d), pay);
+}
+#endif
+
 template <typename C>
 static int planAct(C& c, const Act& a) {
 	auto plan = c.plan();
-	if (!std::strcmp(a.k, "PC")) return plan.change(static_cast<ffsm2::StateID>(a.a), static_cast<ffsm2::StateID>(a.b)) ? 1 : 0;
+	if (!std::strcmp(a.k, "PC")) return planChangeVar(plan, a.a, a.b) ? 1 : 0;
 #if VH_PAY
-	if (!std::strcmp(a.k, "PW")) return plan.changeWith(static_cast<ffsm2::StateID>(a.a), static_cast<ffsm2::StateID>(a.b), mkPay(a.p)) ? 1 : 0;
+	if (!std::strcmp(a.k, "PW")) return planChangeWithVar(plan, a.a, a.b, mkPay(a.p)) ? 1 : 0;
 #endif
 	if (!std::strcmp(a.k, "PX")) { plan.clear(); return 0; }
 	if (!std::strcmp(a.k, "PR")) {
@@ -474,13 +541,24 @@ template <> struct Perform<1> {
 };
 template <> struct Perform<2> {
 	template <typename C> static int act(C& c, const Act& a, int self) {
-		if (!std::strcmp(a.k, "T")) { c.changeTo(static_cast<ffsm2::StateID>(a.a)); return 0; }
+		if (!std::strcmp(a.k, "T")) {
+			if (typedNow()) { F_changeTo<C> f = { c }; typed(a.a, f); } else c.changeTo(static_cast<ffsm2::StateID>(a.a));
+			return 0; }
 #if VH_PAY
-		if (!std::strcmp(a.k, "W")) { c.changeWith(static_cast<ffsm2::StateID>(a.a), mkPay(a.p)); return 0; }
+		if (!std::strcmp(a.k, "W")) {
+			const Pay pay = mkPay(a.p);
+			if (typedNow()) { F_changeWith<C> f = { c, pay }; typed(a.a, f); } else c.changeWith(static_cast<ffsm2::StateID>(a.a), pay);
+			return 0; }
 #endif
 #if VH_PLANS
-		if (!std::strcmp(a.k, "S")) { if (a.a == NONE) { if (self == NONE) return -1; c.succeed(); } else c.succeed(static_cast<ffsm2::StateID>(a.a)); return 0; }
-		if (!std::strcmp(a.k, "F")) { if (a.a == NONE) { if (self == NONE) return -1; c.fail(); }	 else c.fail(static_cast<ffsm2::StateID>(a.a)); return 0; }
+		if (!std::strcmp(a.k, "S")) {
+			if (a.a == NONE) { if (self == NONE) return -1; c.succeed(); }
+			else if (typedNow()) { F_succeed<C> f = { c }; typed(a.a, f); } else c.succeed(static_cast<ffsm2::StateID>(a.a));
+			return 0; }
+		if (!std::strcmp(a.k, "F")) {
+			if (a.a == NONE) { if (self == NONE) return -1; c.fail(); }
+			else if (typedNow()) { F_fail<C> f = { c }; typed(a.a, f); } else c.fail(static_cast<ffsm2::StateID>(a.a));
+			return 0; }
 		return planAct(c, a);
 #else
 		(void) self; return -1;
@@ -510,9 +588,14 @@ static void deliver(int m, int s, int j, TControl& control, int selfOk, int evOk
 	g_rec.kv("sid", control.stateId());
 	emitCAct(control);
 	emitMAct(machine);
-	g_rec.kv("ctx", &control.context() == &machine.context() ? 1 : 0);
+	g_rec.kv("ctx", (&control.context() == &machine.context() && &control._() == &machine.context()) ? 1 : 0);
 	g_rec.kv("self", selfOk); g_rec.kv("ev", evOk);
 	emitTr("req", control.request());
+#if VH_HISTORY
+	emitTr("cprev", control.previousTransitions());		// the history as the callback sees it
+#else
+	g_rec.tr("cprev", NONE, NONE, 0);
+#endif
 	Views<K>::cur(control);
 	Views<K>::pend(control);
 	const int planLen = Views<K>::plan(control);
@@ -663,8 +746,9 @@ static void emitObs(Inst& in) {
 	g_rec.kv("act", m.activeStateId());
 	g_rec.s("\"ia\":[");
 	bool first = true;
+	const bool ty = typedNow();
 	for (int i = 0; i < VH_N; ++i)
-		if (m.isActive(static_cast<ffsm2::StateID>(i))) { if (!first) g_rec.s(","); g_rec.i(i); first = false; }
+		if (isActiveVar(m, i, ty)) { if (!first) g_rec.s(","); g_rec.i(i); first = false; }
 	g_rec.s("],");
 #if VH_MANUAL
 	g_rec.kv("on", m.isActive() ? 1 : 0);
@@ -818,18 +902,20 @@ static bool execOp(int idx, const Op& o) {
 	else if (op == "update") in.m->update();
 	else if (op == "react")	 { Ev e = { static_cast<int>(o.a) }; g_evPtr = &e; in.m->react(e); g_evPtr = nullptr; }
 	else if (op == "query")	 { Ev e = { static_cast<int>(o.a) }; g_evPtr = &e; const FSM::Instance& cm = *in.m; cm.query(e); g_evPtr = nullptr; r = e.v; }
-	else if (op == "to")	 in.m->changeTo(static_cast<ffsm2::StateID>(o.a));
-	else if (op == "ito")	 in.m->immediateChangeTo(static_cast<ffsm2::StateID>(o.a));
+	else if (op == "to")	 { if (typedNow()) { F_changeTo<FSM::Instance> f = { *in.m }; typed(static_cast<int>(o.a), f); } else in.m->changeTo(static_cast<ffsm2::StateID>(o.a)); }
+	else if (op == "ito")	 { if (typedNow()) { F_immediateChangeTo<FSM::Instance> f = { *in.m }; typed(static_cast<int>(o.a), f); } else in.m->immediateChangeTo(static_cast<ffsm2::StateID>(o.a)); }
 #if VH_PAY
-	else if (op == "with")	 in.m->changeWith(static_cast<ffsm2::StateID>(o.a), mkPay(static_cast<int>(o.p)));
-	else if (op == "iwith")	 in.m->immediateChangeWith(static_cast<ffsm2::StateID>(o.a), mkPay(static_cast<int>(o.p)));
+	else if (op == "with")	 { const Pay pay = mkPay(static_cast<int>(o.p));
+							   if (typedNow()) { F_changeWith<FSM::Instance> f = { *in.m, pay }; typed(static_cast<int>(o.a), f); } else in.m->changeWith(static_cast<ffsm2::StateID>(o.a), pay); }
+	else if (op == "iwith")	 { const Pay pay = mkPay(static_cast<int>(o.p));
+							   if (typedNow()) { F_immediateChangeWith<FSM::Instance> f = { *in.m, pay }; typed(static_cast<int>(o.a), f); } else in.m->immediateChangeWith(static_cast<ffsm2::StateID>(o.a), pay); }
 #endif
 #if VH_PLANS
-	else if (op == "succeed") in.m->succeed(static_cast<ffsm2::StateID>(o.a));
-	else if (op == "fail")	  in.m->fail(static_cast<ffsm2::StateID>(o.a));
-	else if (op == "pc")	  r = in.m->plan().change(static_cast<ffsm2::StateID>(o.a), static_cast<ffsm2::StateID>(o.b)) ? 1 : 0;
+	else if (op == "succeed") { if (typedNow()) { F_succeed<FSM::Instance> f = { *in.m }; typed(static_cast<int>(o.a), f); } else in.m->succeed(static_cast<ffsm2::StateID>(o.a)); }
+	else if (op == "fail")	  { if (typedNow()) { F_fail<FSM::Instance> f = { *in.m }; typed(static_cast<int>(o.a), f); } else in.m->fail(static_cast<ffsm2::StateID>(o.a)); }
+	else if (op == "pc")	  { auto plan = in.m->plan(); r = planChangeVar(plan, static_cast<int>(o.a), static_cast<int>(o.b)) ? 1 : 0; }
 #if VH_PAY
-	else if (op == "pw")	  r = in.m->plan().changeWith(static_cast<ffsm2::StateID>(o.a), static_cast<ffsm2::StateID>(o.b), mkPay(static_cast<int>(o.p))) ? 1 : 0;
+	else if (op == "pw")	  { auto plan = in.m->plan(); r = planChangeWithVar(plan, static_cast<int>(o.a), static_cast<int>(o.b), mkPay(static_cast<int>(o.p))) ? 1 : 0; }
 #endif
 	else if (op == "px")	  in.m->plan().clear();
 	else if (op == "pr")	  { auto plan = in.m->plan(); int n = 0; for (auto it = plan.begin(); it; ++it, ++n) if (n == o.a) { it.remove(); r = 1; break; } }
